@@ -28,7 +28,7 @@ type OptionRule struct {
 }
 
 func (rule OptionRule) AsRewriteRule(pkg string) (option.RewriteRule, error) {
-	if err := oneMemberOnly("option rules", rule); err != nil {
+	if err := OneMemberOnly("option rules", rule); err != nil {
 		return option.RewriteRule{}, err
 	}
 
